@@ -85,7 +85,10 @@ REGISTRY["C06"] = {
     "world": KernelSim, "level": "exploration", "budget": kernel_budget(20000, 400000),
     "rule": "each evaluation is one sampled (einsum, operand values) executed under every loop order, every tile size "
             "of one sampled rank (tile loops adjacent or separated) and the three intersection styles with the real "
-            "swizzleRanks / splitUniform / & / << / +=; every execution is compared with a dense evaluation. "
+            "swizzleRanks / splitUniform / & / << / +=; every execution is compared with a dense evaluation; between two "
+            "executions the program may update an operand in place or walk it with plain loops, executions may swizzle "
+            "unconditionally and take their output as a copy of a declared empty tensor, and tiled executions may keep the "
+            "output's un-tiled rank (populated tile after tile). "
             "distinct = distinct event-log digest; non-trivial = at least two dataflows executed",
     "components": REAL_KERNEL, "assumptions": KERNEL_ASSUME,
 }
@@ -138,7 +141,9 @@ REGISTRY["C17"] = {
             "or a filterTrace / _combineTraces call) executed once undisturbed through the file seam and judged against "
             "the reference policy model, then once per file event n of that call with the call aborted (SimAbort, torn "
             "write) or failed (ENOSPC) at event n and restarted with the same arguments; the restart must return the "
-            "undisturbed result, leave the inputs untouched and remove all temporaries. distinct = distinct event-log "
+            "undisturbed result, leave the inputs untouched and remove all temporaries; afterwards (second act) the same "
+            "trace file names may hold another kernel's traces, or a Format object the caller kept is given another width, "
+            "and the models are called again. distinct = distinct event-log "
             "digest; non-trivial = at least two calls",
     "components": {
         "fibertree.model.traffic / format": "real code from /repo working tree",
@@ -166,7 +171,8 @@ REGISTRY["C13"] = {
             "be identical, inside the shape and full at density 1. (c) tensors / fibers / rank-0 tensors holding explicit "
             "defaults, empty sub-fibers, float payloads and names are dumped through the file seam onto a path that is "
             "fresh, holds an older (possibly longer) dump, or a torn dump left by a dump aborted at file event n (every n), "
-            "and loaded back. distinct = distinct event-log digest; non-trivial = at least two constructions or dumps",
+            "and loaded back; the dumped object may be updated in place afterwards (the file must not follow it) and dumped "
+            "again (that file holds the new state). distinct = distinct event-log digest; non-trivial = at least two constructions or dumps",
     "components": {
         "fibertree.core.fiber / tensor (fromRandom, dump, parse, dict2fiber, fromYAMLfile)": "real code from /repo working tree",
         "yaml": "real",
